@@ -345,6 +345,11 @@ package server
 //@ func (*BgpServer).prePolicyFilterpath
 //@   claims at-return
 //@   at-return requires ok && old != nil && table.CanImportToVrf(vrf, old) ==> ret0 != nil
+// from C17 "re-advertised to that VRF's attached peers as a plain route": the withdrawals the filter chain derives from
+// the replaced route are plain too - the replaced route handed to the chain for a VRF neighbour is never the global
+// VPN route itself (that one, withdrawn, would go out in the VPN family with the RD-qualified NLRI)
+//@   claims at-call
+//@   at-call ^filterpath(peer, path, old) requires peerVrf != "" && arg2 != nil ==> arg2 != old0
 
 // =============================================================================================
 // C12 - graceful restart: the per-call parts (DESIGN.md 4 C12; every "exactly when <timer/event order>" clause
